@@ -61,7 +61,18 @@ func newTW(c *ev.Ctx, prop string, ver uint32, seed uint64, wga int) *tw {
 	w.hd = make(chan struct{})
 	go func() { srv.Handle(w.tp.sEnd, w.tp.sEnd); close(w.hd) }()
 	var err error
-	ok := ev.Watch(wd, func() { w.cl, err = p9.NewClient(w.tp.cEnd, p9.WithMessageSize(1<<16)) })
+	// msize: mostly 64 KiB; every third world a small one, with xattr values and
+	// name lists several times longer (the client has to fetch them in pieces)
+	ms := uint32(1 << 16)
+	switch seed % 6 {
+	case 2:
+		ms, w.rf.XattrMax = 4096, 11000
+	case 5:
+		ms, w.rf.XattrMax = 8192, 40000
+	case 0:
+		w.rf.XattrMax = 65536 // at the default size only values at the very top are too long for one reply
+	}
+	ok := ev.Watch(wd, func() { w.cl, err = p9.NewClient(w.tp.cEnd, p9.WithMessageSize(ms)) })
 	if !ok || err != nil || w.cl.Version() != ver {
 		c.Inconclusive(fmt.Sprintf("%s: NewClient at version %d: %v", prop, ver, err))
 		w.tp.close()
@@ -594,7 +605,7 @@ func (w *tw) exercise(round int) {
 		w.count("ReadAt", n > 0)
 	}
 	for i := 0; i < 2; i++ {
-		n := []int{0, 1, 9, 200, 4000}[r.Intn(5)]
+		n := []int{0, 1, 9, 200, 3000}[r.Intn(5)] // below the smallest payload size in use (3584): one chunk
 		off := int64(g.Int(63))
 		data := r.Bytes(n)
 		be := inject("WriteAt")
